@@ -319,7 +319,7 @@ PROPS = {
         "generated round trips incl. all subsets of all small configurations + direct round-trip oracle on the implementation up to "
         "full-size configurations.",
         "cases = encode/decode op sequences; distinct = distinct op-sequence text; non-trivial = a decode of >= k shards with a missing original or surplus",
-        pre_lean=gen_c01, technique=TECH_TRC,
+        pre_lean=gen_c01, technique=TECH_TRC, profiles=["release", "dev"],
         design_ref="DESIGN.md §6 C01",
     ),
     "C02": P(
@@ -339,7 +339,7 @@ PROPS = {
         "either schedule. Direct oracle: engine vs engine (6 engines incl. Neon source on emulated intrinsics) on primitives (contract-valid "
         "outputs + frame) and end to end; model schedule vs implementation lane by lane.",
         "cases = primitive calls (fft/ifft/mul/eval_poly with generated parameters) on every engine + mixed-engine round trips; distinct by parameters",
-        pre_lean=gen_c03, technique=TECH_TRE, extra_targets=["srcengine"], build_variants=True,
+        pre_lean=gen_c03, technique=TECH_TRE, extra_targets=["srcengine"], build_variants=True, profiles=["release", "dev"],
         design_ref="DESIGN.md §6 C03",
     ),
     "C04": P(
